@@ -2,16 +2,75 @@
 C06 — proofs (part: subset schedules).  Statements are fixed; they are re-exported by `Props.lean`.
 -/
 import StirVerif.C06.Model
+import Mathlib.Data.List.Perm.Subperm
+import Mathlib.Data.Nat.ModEq
+import Mathlib.Data.List.Nodup
 
 namespace StirVerif.C06
 
 theorem schedule_perm (n start m : Nat) (hn : 0 < n) :
     ((List.range n).map fun k => subsetNum (m * n + 1 + k) start n).Perm (List.range n) := by
-  sorry
+  have hnd : ((List.range n).map fun k => subsetNum (m * n + 1 + k) start n).Nodup := by
+    refine List.Nodup.map_on ?_ List.nodup_range
+    intro a ha b hb hab
+    rw [List.mem_range] at ha hb
+    simp only [subsetNum] at hab
+    have e : ∀ k, m * n + 1 + k + start - 1 = k + (start + m * n) := by intro k; omega
+    rw [e a, e b] at hab
+    have h2 : a ≡ b [MOD n] := Nat.ModEq.add_right_cancel' _ hab
+    have h3 := h2.eq_of_lt_of_lt ha hb
+    exact h3
+  have hsub : ((List.range n).map fun k => subsetNum (m * n + 1 + k) start n) ⊆ List.range n := by
+    intro x hx
+    rw [List.mem_map] at hx
+    obtain ⟨k, _, rfl⟩ := hx
+    rw [List.mem_range]
+    exact Nat.mod_lt _ hn
+  exact (List.subperm_of_subset hnd hsub).perm_of_length_le (by simp)
+
+theorem removeAt_perm (temp : List Nat) (idx x : Nat) (hx : temp[idx]? = some x) :
+    (x :: removeAt temp idx).Perm temp := by
+  induction temp generalizing idx with
+  | nil => simp at hx
+  | cons a t ih =>
+    cases idx with
+    | zero =>
+      simp at hx
+      subst hx
+      simp [removeAt]
+    | succ i =>
+      simp at hx
+      have := ih i hx
+      simp only [removeAt, List.take_succ_cons, List.drop_succ_cons, List.cons_append]
+      exact (List.Perm.swap a x _).trans (this.cons a)
+
+theorem removeAt_length (temp : List Nat) (idx x : Nat) (hx : temp[idx]? = some x) :
+    (removeAt temp idx).length + 1 = temp.length := by
+  have := (removeAt_perm temp idx x hx).length_eq
+  simpa using this
+
+theorem permuteAux_perm (draws : List Nat) : ∀ temp : List Nat, draws.length = temp.length →
+    (permuteAux temp draws).Perm temp := by
+  induction draws with
+  | nil =>
+    intro temp h
+    have : temp = [] := List.length_eq_zero_iff.mp h.symm
+    subst this
+    simp [permuteAux]
+  | cons d ds ih =>
+    intro temp h
+    have hpos : 0 < temp.length := by rw [← h]; simp
+    have hidx : (if d ≥ temp.length then temp.length - 1 else d) < temp.length := by
+      split <;> omega
+    obtain ⟨x, hx⟩ : ∃ x, temp[if d ≥ temp.length then temp.length - 1 else d]? = some x :=
+      ⟨_, List.getElem?_eq_getElem hidx⟩
+    simp only [permuteAux, hx]
+    have hl := removeAt_length temp _ x hx
+    have := ih (removeAt temp (if d ≥ temp.length then temp.length - 1 else d)) (by simp at h; omega)
+    exact (this.cons x).trans (removeAt_perm temp _ x hx)
 
 theorem permute_perm (n : Nat) (draws : List Nat) (h : draws.length = n) :
     (permute n draws).Perm (List.range n) := by
-  sorry
-
+  exact permuteAux_perm draws (List.range n) (by simp [h])
 
 end StirVerif.C06
